@@ -188,15 +188,16 @@ def run_case(case, ctx):
             if "error" in a:
                 ctx.violation("%s:%s:target-rejects:%s" % (vtag, kind, a["error"].split(":")[0]), "Python %s cannot load the written file: %s %s" % (v, a["error"][:120], where))
                 continue
-            # xdis.marsh writes floats in the text form (format version 0): NaN sign/payload is not carried (DESIGN 3.2)
-            dd = tree_diff(pr["tree"], a["tree"], nan_loose=(kind == "portable"))
+            # Python 2 code objects are written with text floats (every 2.x reads them): NaN sign/payload is not carried there
+            # (DESIGN 3.2); Python 3 targets get binary floats and are compared bit for bit
+            dd = tree_diff(pr["tree"], a["tree"], nan_loose=(kind == "portable" and ver < (3, 0)))
             if dd:
                 ctx.violation("%s:%s:target-tree:%s" % (vtag, kind, first_kind_diff(dd)), "as loaded by Python %s differs at %s: expected %s got %s %s" % ((v,) + dd + (where,)))
                 continue
             # (b) xdis reads it back
             try:
                 res = load_module_from_file_object(io.BytesIO(out))
-                d2 = tree_diff(pr["tree"], xcanon(res[3], ver), nan_loose=(kind == "portable"))
+                d2 = tree_diff(pr["tree"], xcanon(res[3], ver), nan_loose=(kind == "portable" and ver < (3, 0)))
                 if d2:
                     ctx.violation("%s:%s:xdis-reread:%s" % (vtag, kind, first_kind_diff(d2)), "xdis re-read differs at %s: expected %s got %s %s" % (d2 + (where,)))
             except Exception as e:
